@@ -29,6 +29,38 @@ INT_TYPES = {
 }
 
 
+class BudgetExceeded(BaseException):
+    """Raised by the wall-clock budget (pkv.main installs the SIGALRM handler); deliberately not an Exception so that no
+    `except Undecided` / `except Exception` inside the engine swallows it."""
+
+
+class soft_budget:
+    """`with soft_budget(120, 'why')`: a tighter wall-clock budget for one exploration that is known to be risky; when it runs out
+    the block fails closed with Undecided(why).  A no-op when no budget handler is installed (tools that import the engine)."""
+    def __init__(self, seconds, why):
+        self.seconds, self.why = seconds, why
+    def __enter__(self):
+        import signal, time
+        self.active = callable(signal.getsignal(signal.SIGALRM))
+        if self.active:
+            self.prev = signal.getitimer(signal.ITIMER_REAL)[0]
+            self.t0 = time.time()
+            self.mine = self.prev == 0 or self.prev > self.seconds
+            if self.mine:
+                signal.setitimer(signal.ITIMER_REAL, self.seconds)
+        return self
+    def __exit__(self, et, ev, tb):
+        import signal, time
+        if not self.active:
+            return False
+        if self.mine:
+            left = (self.prev - (time.time() - self.t0)) if self.prev else 0
+            signal.setitimer(signal.ITIMER_REAL, max(left, 1) if self.prev else 0)
+        if et is BudgetExceeded and self.mine:
+            raise Undecided(self.why)
+        return False
+
+
 class Undecided(Exception):
     """A construct the abstract semantics cannot decide (fail closed)."""
 
